@@ -160,6 +160,84 @@ def norm(node: ast.AST) -> str:
         return ast.dump(node)
 
 
+class _Canon(ast.NodeTransformer):
+    """Two value-preserving rewrites applied to every module before analysis, so that the rules see one shape for code that
+    differs only in these ways:
+      * `t = E; return t`  (t bound once, used only in that return)   ->  `return E`
+      * `if a:\n    if b: X`  (no else on either, nothing else in the outer body)  ->  `if a and b: X`
+    Line numbers are kept from the original statements."""
+
+    def _inline_return_temps(self, fn: ast.AST) -> None:
+        loads: Dict[str, int] = {}
+        stores: Dict[str, int] = {}
+        for n in ast.walk(fn):
+            if isinstance(n, ast.Name):
+                d = loads if isinstance(n.ctx, ast.Load) else stores
+                d[n.id] = d.get(n.id, 0) + 1
+
+        # adjacent (t = E; return t) pairs per name: a name all of whose loads and stores are in such pairs is a pure return temporary
+        pairs: Dict[str, int] = {}
+        for n in ast.walk(fn):
+            for f in ("body", "orelse", "finalbody"):
+                sub = getattr(n, f, None)
+                if isinstance(sub, list):
+                    for a, b in zip(sub, sub[1:]):
+                        if isinstance(a, ast.Assign) and len(a.targets) == 1 and isinstance(a.targets[0], ast.Name) and isinstance(b, ast.Return) \
+                                and isinstance(b.value, ast.Name) and b.value.id == a.targets[0].id:
+                            pairs[a.targets[0].id] = pairs.get(a.targets[0].id, 0) + 1
+            if isinstance(n, ast.ExceptHandler):
+                for a, b in zip(n.body, n.body[1:]):
+                    if isinstance(a, ast.Assign) and len(a.targets) == 1 and isinstance(a.targets[0], ast.Name) and isinstance(b, ast.Return) \
+                            and isinstance(b.value, ast.Name) and b.value.id == a.targets[0].id:
+                        pairs[a.targets[0].id] = pairs.get(a.targets[0].id, 0) + 1
+
+        def block(stmts: List[ast.stmt]) -> List[ast.stmt]:
+            out: List[ast.stmt] = []
+            i = 0
+            while i < len(stmts):
+                s = stmts[i]
+                nxt = stmts[i + 1] if i + 1 < len(stmts) else None
+                if isinstance(s, ast.Assign) and len(s.targets) == 1 and isinstance(s.targets[0], ast.Name) and isinstance(nxt, ast.Return) \
+                        and isinstance(nxt.value, ast.Name) and nxt.value.id == s.targets[0].id \
+                        and loads.get(s.targets[0].id, 0) == pairs.get(s.targets[0].id, -1) == stores.get(s.targets[0].id, 0):
+                    out.append(ast.copy_location(ast.Return(value=s.value), s))
+                    i += 2
+                    continue
+                for f in ("body", "orelse", "finalbody"):
+                    sub = getattr(s, f, None)
+                    if isinstance(sub, list) and sub and isinstance(sub[0], ast.stmt) and not isinstance(s, (ast.FunctionDef, ast.AsyncFunctionDef, ast.ClassDef)):
+                        setattr(s, f, block(sub))
+                if isinstance(s, ast.Try):
+                    for h in s.handlers:
+                        h.body = block(h.body)
+                out.append(s)
+                i += 1
+            return out
+
+        fn.body = block(fn.body)
+
+    def visit_FunctionDef(self, node):
+        self.generic_visit(node)
+        self._inline_return_temps(node)
+        return node
+
+    visit_AsyncFunctionDef = visit_FunctionDef
+
+    def visit_If(self, node):
+        self.generic_visit(node)
+        if not node.orelse and len(node.body) == 1 and isinstance(node.body[0], ast.If) and not node.body[0].orelse:
+            inner = node.body[0]
+            vals = (node.test.values if isinstance(node.test, ast.BoolOp) and isinstance(node.test.op, ast.And) else [node.test]) + \
+                   (inner.test.values if isinstance(inner.test, ast.BoolOp) and isinstance(inner.test.op, ast.And) else [inner.test])
+            test = ast.copy_location(ast.BoolOp(op=ast.And(), values=list(vals)), node.test)
+            return ast.copy_location(ast.If(test=test, body=inner.body, orelse=[]), node)
+        return node
+
+
+def canonicalise(tree: ast.Module) -> ast.Module:
+    return ast.fix_missing_locations(_Canon().visit(tree))
+
+
 class Index:
     def __init__(self, repo: str):
         self.repo = repo
@@ -189,6 +267,7 @@ class Index:
                     tree = ast.parse(src, filename=path)
                 except SyntaxError as e:
                     raise AnalysisError(f"cannot parse {path}: {e}") from e
+                tree = canonicalise(tree)
                 self.modules[rel] = ModuleInfo(rel, path, tree, src, is_pkg)
         for m in self.modules.values():
             self._scan_module(m)
